@@ -22,7 +22,9 @@ ASSUMPTIONS = ["'payload' = frame[10:-2]; a field is present iff its offset < le
                "fan byte generated in 0..127; tenths nibbles generated in 0..9",
                "aux heat = byte 9 bit 3; independent aux = byte 8 bit 6; turbo = byte 8 bit 5 or byte 10 bit 1; "
                "display off <=> ((b14 >> 4) & 7) == 7 (vendor Lua 1806, 4357-4361); filter <=> byte 13 bit 5"]
-ANCHORS = ["command.py:StateResponse._parse", "command.py:StateResponse._parse_temperature", "device.py:AirConditioner._update_state"]
+# reach anchors: only entry points this check calls itself or callbacks the event loop needs (robust against internal refactors);
+# that the mechanism was really exercised is demanded through MIN_NONTRIVIAL / MIN_HIST outcome counts
+ANCHORS = ["device.py:AirConditioner.refresh", "command.py:Response.construct"]
 MIN_NONTRIVIAL = {"quick": 9000, "thorough": 150000}
 WORKERS = {"quick": 1, "thorough": 16}
 EXHAUSTIVE = {t: ["256 x 10 (temperature byte, tenths) per sensor in both units", "32 x 32 setpoint codes",
@@ -121,10 +123,18 @@ def _histories(ctx, rng):
                "push_type": rng.choice([3, 4, 5]), "edit": rng.random() < 0.3}
 
 
+def _noisy(ctx, rng):
+    """The reply shares its exchange with other frames: a damaged frame ahead of it, an unsolicited report of the same state
+    around it; on V2 (one packet per segment) and on V3 with all packets of the exchange coalesced into one TCP segment."""
+    for _ in range(200 if ctx.tier == "quick" else 8000):
+        yield {"body": bytes(_rand_body(rng, rng.randint(16, 40))), "check": rng.choice(["crc", "sum"]), "junk_before": rng.choice([0, 1, 1, 2]),
+               "dup_after": rng.choice([0, 0, 1]), "dup_before": rng.choice([0, 1]), "v3": rng.random() < 0.5, "label": "reply-among-other-frames"}
+
+
 def generate(ctx, rng):
     batch = []
     n = 0
-    for it in list(_check_values(ctx, rng)) + list(_histories(ctx, rng)):
+    for it in list(_check_values(ctx, rng)) + list(_histories(ctx, rng)) + list(_noisy(ctx, rng)):
         batch.append(it)
         if len(batch) == BATCH:
             yield ("xbatch", n), {"items": batch}
@@ -177,12 +187,38 @@ def _expect_temp(ctx, item, name, got, raw, tenths, fahr):
 def run_case(ctx, case):
     items = case["items"]
     net = H.new_net()
-    dev = SimDevice(net, version=2, device_id=0x42)
+    dev2 = SimDevice(net, version=2, device_id=0x42)
+    tok3, key3 = bytes(range(64)), bytes(range(32))
+    dev3 = SimDevice(net, host="10.0.0.3", version=3, token=tok3, key=key3, device_id=0x43)
     results = []
+    cur = {"it": None}
+
+    def noisy(d):
+        def on_exchange(conn, req, packets, meta):
+            it = cur["it"]
+            if not it or not it.get("label") == "reply-among-other-frames" or not packets:
+                return None
+            from ..ref import acframe
+            bad = bytearray(acframe.build(bytes(it["body"][:1]) + bytes(reversed(it["body"][1:])), 3))
+            bad[-1] ^= 0x5A                                   # damaged frame: its checksum does not match
+            dup = d.ac.state_frame(5)                         # an unsolicited report of the same state
+            frames = [bytes(bad)] * it["junk_before"] + [dup] * it["dup_before"]
+            out = [d.wrap(conn, f) for f in frames] + list(packets) + [d.wrap(conn, dup)] * it["dup_after"]
+            if d.version == 3:
+                return [(0, b"".join(out))]                   # one TCP segment
+            return [(0, p) for p in out]
+        return on_exchange
+
+    dev2.on_exchange = noisy(dev2)
+    dev3.on_exchange = noisy(dev3)
 
     async def go(loop):
         for it in items:
+            cur["it"] = it
+            dev = dev3 if it.get("v3") else dev2
             ac = AC(ip=dev.host, port=dev.port, device_id=dev.device_id)
+            if it.get("v3"):
+                await ac.authenticate(tok3, key3)
             dev.ac.header_fill = bytes(it.get("header_fill") or bytes(5))
             if it.get("prev_body"):
                 dev.ac.raw_state_body = bytes(it["prev_body"])
